@@ -325,7 +325,7 @@ def quick_unsat(facts, timeout_ms=1000):
 
 class Exec:
     def __init__(self, unit, func, models, callees=None, loops=None, axioms=(), timeout_ms=20000, prune=True,
-                 type_hints=None):
+                 type_hints=None, lenient=False, stop_at=None):
         self.unit, self.func, self.models = unit, func, models
         self.callees = callees or {}
         self.loops = loops or {}
@@ -334,6 +334,7 @@ class Exec:
         self.loop_ord = {}
         self.prune = prune
         self.type_hints = type_hints or {}
+        self.lenient, self.stop_at = lenient, stop_at
         self._number_loops(func.body)
         self.exports = export_table()
         self.dropped = set(func.dropped)
@@ -510,6 +511,11 @@ class Exec:
             return self.models.GLOBAL_NAMES[e.id]
         if e.id in ('True', 'False'):
             return e.id == 'True'
+        if self.models.module_has(self.func.module, e.id):
+            qual = f'{self.func.module}.{e.id}'
+            h = self.callees.get(qual) or self.models.CALLEES.get(qual)
+            if h is not None:
+                return VFunc(qual, h)
         raise Unsupported(f'unbound name {e.id} at line {e.lineno}')
 
     def ev_Tuple(self, e, st):
@@ -619,6 +625,8 @@ class Exec:
 
     def binop(self, st, op, l, r, node):
         ld, rd = st.deref(l), st.deref(r)
+        if isinstance(ld, VOpaque) or isinstance(rd, VOpaque):
+            return VOpaque('arith')
         if isinstance(ld, VArr) or isinstance(rd, VArr):
             return self.models.arr_binop(self, st, op, ld, rd, node)
         if isinstance(ld, VList) and isinstance(op, ast.Mult):
@@ -633,7 +641,7 @@ class Exec:
         if isinstance(l, VStr) or isinstance(r, VStr):
             self.dropped.add('string arithmetic')
             return VOpaque('str')
-        if isinstance(l, VOpaque) or isinstance(r, VOpaque):
+        if isinstance(ld, VOpaque) or isinstance(rd, VOpaque):
             return VOpaque('arith')
         a, b = self.need_num(st, l, node), self.need_num(st, r, node)
         return self.arith(st, op, a, b, node)
@@ -765,10 +773,16 @@ class Exec:
         if nm in self.models.GLOBAL_NAMES:
             return self.models.GLOBAL_NAMES[nm]
         v = st.deref(self.ev(e.value, st))
+        if isinstance(v, VOpaque):
+            return VOpaque('attr')
         return self.models.attribute(self, st, v, e.attr, e)
 
     def ev_Subscript(self, e, st):
         base = self.ev(e.value, st)
+        if isinstance(base, VOpaque):
+            if not isinstance(e.slice, (ast.Slice, ast.Tuple)):
+                self.ev(e.slice, st)
+            return VOpaque('item')
         return self.models.subscript(self, st, base, e.slice, e)
 
     def ev_Slice(self, e, st):
@@ -814,9 +828,18 @@ class Exec:
                 recv = self.ev(root, st)
                 args = [self.ev(a, st) for a in e.args]
                 kwargs = {k.arg: self.ev(k.value, st) for k in e.keywords}
+                if isinstance(st.deref(recv), VOpaque):
+                    return VOpaque('method')
                 return self.models.method(self, st, recv, e.func.attr, args, kwargs, e)
         h = self.models.FUNCS.get(name)
         if h is None:
+            if self.lenient and name.split('.')[0] in ('np', 'sp', 'scipy', 'numpy'):
+                args = [self.ev(a, st) for a in e.args] + [self.ev(k.value, st) for k in e.keywords]
+                for a in args:
+                    if isinstance(a, VRef) and isinstance(st.heap.get(a.oid), VRec):
+                        raise Unsupported(f'unmodelled call {name} receives a dict at line {e.lineno}')
+                self.models.used(f'{name}(...) -> opaque array (lenient tier: value not interpreted, no effect on lists/dicts)')
+                return VOpaque(name)
             raise Unsupported(f'call of {name} at line {e.lineno}: not in the model table')
         args = [self.ev(a, st) for a in e.args]
         kwargs = {k.arg: self.ev(k.value, st) for k in e.keywords}
@@ -871,6 +894,8 @@ class Exec:
         return out
 
     def _stmt(self, s, st):
+        if self.stop_at is not None and self.stop_at(s):
+            return [(st, Outcome('stop', node=s))]
         m = getattr(self, 'st_' + type(s).__name__, None)
         if m is None:
             raise Unsupported(f'statement {type(s).__name__} at line {s.lineno}')
@@ -1066,6 +1091,8 @@ class Exec:
                 c = self.truth(b, self.ev(test, b), s)
                 b.assume(Z(c))
         for s1, o1 in self.exec_block(s.body, b):
+            if 'body_end' in spec:
+                spec['body_end'](self, s1, o1, j)
             if o1.kind in ('normal', 'continue'):
                 for lbl, g in inv(self, s1, j + 1):
                     self.oblige(s1, 'inv-keep', f'loop{ordn}.{lbl}', g, s, assume=False)
@@ -1084,5 +1111,8 @@ class Exec:
                 o = Outcome('return', value=NONE)
             if o.kind in ('break', 'continue'):
                 raise Unsupported('break/continue outside loop')
+            if o.kind == 'stop':
+                res.append((s1, o))
+                continue
             res.append((s1, o))
         return res
